@@ -223,8 +223,11 @@ Proof.
   intros [M1 M2 M3] H. unfold try_commit in H.
   pose proof (patch_adjust_mirror (m_conf m) p) as [A1 A2].
   destruct (patch_adjust (m_conf m) p) as [c1 p1]. cbn [fst] in *.
+  assert (S1 : ksorted (c_groups c1)) by (rewrite A2; exact M3).
+  destruct (config_adjust_facts c1 S1) as (F1 & F2 & F3).
   destruct (build_rule_list (patch_view c1 p1)) as [be|rl].
-  - inversion H; subst. cbn [m_conf]. constructor; [rewrite A1; exact M1|rewrite A2; exact M2|rewrite A2; exact M3].
+  - inversion H; subst. cbn [m_conf].
+    constructor; [rewrite F1, A1; exact M1|rewrite F2, A2; exact M2|exact F3].
   - destruct (save_patch (patch_trim c1 p1) order f s) as [[s1 failed] ok1]. destruct failed; inversion H.
 Qed.
 
